@@ -633,7 +633,21 @@ fn sigmf_archive_fault(src: &mut Src, ctx: &mut RunCtx, solo: &Solo) -> RunResul
     if ctx.sample.is_none() {
         ctx.sample = Some(json!({"source": "SigMFSource from archive", "fault": fault, "archive_bytes": bytes.len()}));
     }
-    let built = catch(|| SigMFSourceBuilder::<Complex>::new(path.clone()).build());
+    // The caller's settings are not hostile input, but they decide which paths
+    // the hostile content reaches (a rewind of an empty or cut-off recording).
+    let reps = *src.pick(&[1u64, 1, 0, 2, 3]);
+    let lenient = src.chance(1, 4);
+    let built = catch(|| {
+        let mut b = SigMFSourceBuilder::<Complex>::new(path.clone());
+        if reps != 1 {
+            b = b.repeat(rustradio::Repeat::finite(reps));
+        }
+        if lenient {
+            b = b.ignore_type_error();
+        }
+        b.build()
+    });
+    let fault = format!("{fault} (repeat {reps}{})", if lenient { ", type errors ignored" } else { "" });
     match built {
         Err(p) => ctx.tolerate(Violation::new(format!("C15:sigmf-archive:panic:{}", p.site()), format!("SigMFSource constructor panicked on archive fault {fault}: {} at {}", p.msg, p.loc))),
         Ok(Err(_)) => {
